@@ -1,4 +1,5 @@
-import LentilVerif.Lemmas.Energy
+import LentilVerif.Lemmas.EnergyPlane
+import LentilVerif.Lemmas.FourierWiring
 /-! # C05 — propagation conserves energy
 
 Property theorems only. Model: `Model/Energy.lean` over `Model/Fourier.lean`, instantiated at `K = ℂ`, `R = ℝ`. -/
@@ -38,7 +39,7 @@ theorem dft_full_period_energy (f : Arr ℂ) (m n : ℕ) (hm : f.s0 = m) (hn : f
     arrSum (intensity (R := ℝ) (dft2 f (1 / (K : ℝ)) (1 / (L : ℝ)) K L shr shc offr offc true))
       = arrSum (intensity (R := ℝ) f) := by
   rw [arrSum_eq, arrSum_eq]
-  simp only [intensity, NormSqLike.normSq, dft2_s0, dft2_s1, hm, hn, Int.toNat_natCast]
+  simp only [intensity, NormSqLike.normSq, dft2C_s0, dft2C_s1, hm, hn, Int.toNat_natCast]
   exact dft2_energy f m n hm hn K L hK hL hmK hnL shr shc offr offc
 
 /-- **windows.** For any fields and samplings, an evaluated window only selects samples of the field at integer frequency
@@ -94,5 +95,99 @@ theorem fft_path_conserves_energy (x : Arr ℂ) (S0 S1 : ℕ) (h0 : x.s0 = S0) (
   rw [e0, e1, e2, e3]
   refine sum_congr rfl fun i _ => sum_congr rfl fun j _ => ?_
   simp only [intensity, NormSqLike.normSq, fftPath_eq_dft2 x S0 S1 h0 h1 hS0 hS1]
+
+/-! ## over the C02 propagation model (generated window kernel), for any number of fields -/
+
+/-- **the samples `propagate_dft` produces are `fieldAt`.** For tilt-free fields, any output extent (whole array or the
+bounding box of a mask) and any propagation shape, the fields built by the loop body of `propagate_dft` — C02's
+`propagateField` over the window kernel `Gen.dftWindow` regenerated from `propagate.py` — sum, at plane coordinate `(r, c)`, to
+the `fieldAt` the energy theorems are about inside `out_extent ∩ prop_extent`, and to `0` outside. -/
+theorem propagate_dft_samples (fs : List (Fld ℂ)) (αr αc : ℝ) (oe : Extent) (P0 P1 : ℤ)
+    (hoe : oe.rmin ≤ oe.rmax ∧ oe.cmin ≤ oe.cmax) (hP : 0 < P0 ∧ 0 < P1) (r c : ℤ) :
+    (fs.map fun f => embO (propagateField (⟨f, 0, 0, 0, 0⟩ : TField ℂ ℝ) αr αc oe P0 P1) r c).sum
+      = if oe.inb r c && (propExtent P0 P1 0 0).inb r c then fieldAt fs αr αc r c else 0 :=
+  propagateField_sum_eq_fieldAt fs αr αc oe P0 P1 hoe hP r c
+
+/-- **energy of a propagated wavefront, any number of fields.** All fields lie on an `S0 × S1` canvas (the wavefront's
+shape) with `S0 ≤ K`, `S1 ≤ L`, sampling `α = (1/K, 1/L)`. For every finite set `B` of output sample coordinates inside one
+period — whatever output extent, mask box and propagation shape selected them — the intensity `|Σ fields|²` of the C02
+model summed over `B` is at most the input power `Σ|total field on the canvas|²`; over the whole period, when the window
+covers it, it equals the input power. (`Wavefront.intensity = |Wavefront.field|²`: C07; merged fields keep the total: C06.) -/
+theorem propagate_dft_energy (fs : List (Fld ℂ)) (S0 S1 K L : ℕ) (hfit : ∀ f ∈ fs, Fits f S0 S1) (hK : 0 < K) (hL : 0 < L)
+    (hS0 : S0 ≤ K) (hS1 : S1 ≤ L) (oe : Extent) (P0 P1 : ℤ) (hoe : oe.rmin ≤ oe.rmax ∧ oe.cmin ≤ oe.cmax) (hP : 0 < P0 ∧ 0 < P1)
+    (B : Finset (ℤ × ℤ)) (hB : B ⊆ periodBox K L) :
+    ∑ p ∈ B, Complex.normSq
+        ((fs.map fun f => embO (propagateField (⟨f, 0, 0, 0, 0⟩ : TField ℂ ℝ) (1 / (K : ℝ)) (1 / (L : ℝ)) oe P0 P1) p.1 p.2).sum)
+      ≤ arrSum (intensity (R := ℝ) (embedAll fs S0 S1)) ∧
+    ((∀ p ∈ periodBox K L, (oe.inb p.1 p.2 && (propExtent P0 P1 0 0).inb p.1 p.2) = true) →
+      ∑ p ∈ periodBox K L, Complex.normSq
+        ((fs.map fun f => embO (propagateField (⟨f, 0, 0, 0, 0⟩ : TField ℂ ℝ) (1 / (K : ℝ)) (1 / (L : ℝ)) oe P0 P1) p.1 p.2).sum)
+      = arrSum (intensity (R := ℝ) (embedAll fs S0 S1))) := by
+  have hpl := plane_energy_le fs S0 S1 K L hfit hK hL hS0 hS1 B hB
+  constructor
+  · refine le_trans (sum_le_sum fun p _ => ?_) hpl.1
+    rw [propagate_dft_samples fs _ _ oe P0 P1 hoe hP]
+    split_ifs
+    · exact le_refl _
+    · simp [Complex.normSq_nonneg]
+  · intro hcover
+    rw [← hpl.2]
+    refine sum_congr rfl fun p hp => ?_
+    rw [propagate_dft_samples fs _ _ oe P0 P1 hoe hP, hcover p hp, if_pos rfl]
+
+/-- **several fields transform like the wavefront's total field** (linearity + zero-padded embedding): the statement that lets the
+single-array theorems above speak about segmented pupils -/
+theorem fields_transform_as_total (fs : List (Fld ℂ)) (S0 S1 : ℕ) (hfit : ∀ f ∈ fs, Fits f S0 S1) (αr αc : ℝ) (U V : ℤ) :
+    fieldAt fs αr αc U V = fieldAt [canvasFld fs S0 S1] αr αc U V :=
+  fieldAt_eq_canvas fs S0 S1 hfit αr αc U V
+
+example : ∃ (fs : List (Fld ℂ)) (S0 S1 : ℕ), fs.length = 2 ∧ ∀ f ∈ fs, Fits f S0 S1 :=
+  ⟨[⟨⟨1, 2, fun _ _ => 1⟩, 1, 0⟩, ⟨⟨2, 1, fun _ _ => 2⟩, -1, 1⟩], 4, 4, rfl, by
+    intro f hf
+    simp only [List.mem_cons, List.mem_nil_iff, or_false] at hf
+    rcases hf with rfl | rfl
+    · exact ⟨1, 2, rfl, rfl, by norm_num, by norm_num⟩
+    · exact ⟨2, 1, rfl, rfl, by norm_num, by norm_num⟩⟩
+
+/-- **a tilted field keeps its energy over the (displaced) period.** One field with any tilt shift `fix + sub` (integer plus
+sub-pixel part), propagation shape = one period `K × L`, output extent containing the displaced propagation extent: the
+intensity summed over that extent equals the field's power — the period moves with the tilt and the sub-pixel part sits in the
+kernel, neither changes the energy. -/
+theorem tilted_field_period_energy (t : TField ℂ ℝ) (m n : ℕ) (hm : t.fld.arr.s0 = m) (hn : t.fld.arr.s1 = n) (K L : ℕ)
+    (hK : 0 < K) (hL : 0 < L) (hmK : m ≤ K) (hnL : n ≤ L) (oe : Extent) (hoe : oe.rmin ≤ oe.rmax ∧ oe.cmin ≤ oe.cmax)
+    (hcover : ∀ r c, (propExtent K L t.fix0 t.fix1).inb r c = true → oe.inb r c = true) :
+    ∑ u ∈ range K, ∑ v ∈ range L, Complex.normSq
+        (embO (propagateField t (1 / (K : ℝ)) (1 / (L : ℝ)) oe K L) (-((K : ℤ) / 2) + t.fix0 + u) (-((L : ℤ) / 2) + t.fix1 + v))
+      = arrSum (intensity (R := ℝ) t.fld.arr) := by
+  have hE := dft2_energy t.fld.arr m n hm hn K L hK hL hmK hnL t.sub0 t.sub1 t.fld.o0 t.fld.o1
+  rw [arrSum_eq]
+  simp only [intensity, NormSqLike.normSq, hm, hn, Int.toNat_natCast]
+  rw [← hE]
+  refine sum_congr rfl fun u hu => sum_congr rfl fun v hv => ?_
+  have hu' := mem_range.mp hu
+  have hv' := mem_range.mp hv
+  have hin : (propExtent (K : ℤ) (L : ℤ) t.fix0 t.fix1).inb (-((K : ℤ) / 2) + t.fix0 + u) (-((L : ℤ) / 2) + t.fix1 + v) = true := by
+    unfold propExtent; rw [arrayExtent_eq, Extent.inb_iff]; simp only; omega
+  rw [C02.propagateField_sample (K := ℂ) (R := ℝ) (fun _ => rfl) t _ _ oe K L hoe ⟨by exact_mod_cast hK, by exact_mod_cast hL⟩,
+    hcover _ _ hin, hin]
+  simp only [Bool.and_self, if_true, fraunhoferAt]
+  congr 1
+  apply dft2_get_congr
+  · simp only [RealLike.ofInt, cc]; push_cast; ring
+  · simp only [RealLike.ofInt, cc]; push_cast; ring
+
+/-- **the `fft2` contract is the textbook unitary DFT.** `fft2ortho` (written with the shared `dft2` so that the FFT path
+theorem can reuse its algebra) is entry by entry `(1/√(mn)) Σ_a Σ_b x[a,b]·exp(−2πi·a·k/m)·exp(−2πi·b·l/n)`, origin at index 0 -/
+theorem fft2_contract_is_textbook (x : Arr ℂ) (m n : ℕ) (hm : x.s0 = m) (hn : x.s1 = n) (k l : ℤ) :
+    (fft2ortho (R := ℝ) x).get k l = ((Real.sqrt |(1 / (m : ℝ)) * (1 / (n : ℝ))| : ℝ) : ℂ) *
+      ∑ b ∈ range n, (∑ a ∈ range m, Complex.exp (-(2 * Real.pi * Complex.I) * ((a * k : ℤ) : ℂ) / m) * x.get a b)
+        * Complex.exp (-(2 * Real.pi * Complex.I) * ((b * l : ℤ) : ℂ) / n) := by
+  rw [fft2ortho_get_eq x m n hm hn]
+  simp only [fker_eq, E]
+
+/-- the normalisation of the unitary transform is the expression regenerated from `fourier.py` (`np.sqrt(np.abs(alpha_row *
+alpha_col))` under `if unitary:`): the factor whose square is `1/(K·L)` on a full period -/
+theorem unitary_scale_follows_source (αr αc : ℝ) (m n M N : ℤ) (shr shc : ℝ) (offr offc : ℤ) :
+    Gen.fwDft2Scale (fun i : ℤ => (i : ℝ)) Real.sqrt (fun x => |x|) m n αr αc M N shr shc offr offc = Real.sqrt |αr * αc| := rfl
 
 end Lentil.C05
